@@ -98,6 +98,11 @@ class H:
             self._old_tmp = tempfile.tempdir
             tempfile.tempdir = os.path.join(self.dir, "tmp")
             self.path = os.path.join(self.dir, "db.csv")
+            if self.cfg.get("io_proxy"):
+                from . import files
+
+                files.CTL.reset()
+                files.install()
             self.db = TinyFlux(self.path, auto_index=self.ai, **self.cfg.get("csv_kwargs", {}))
         return self.db
 
@@ -112,6 +117,11 @@ class H:
     def close(self):
         symtime.HASH_OK[0] = False
         symtime.uninstall()
+        if self.cfg.get("io_proxy"):
+            from . import files
+
+            files.CTL.active = False
+            files.uninstall()
         if self.dir:
             try:
                 self.db.close()
